@@ -220,6 +220,71 @@ func directedScenarios() []directed {
 		g.call(i, "cim0", 1, 5, 0)                   // grow fails
 		g.sweep()
 	}})
+	// ---- sibling instances of ONE compiled module share a table (and nothing else): every cross-instance call form
+	// must run the callee against the CALLEE's private memory and global
+	for _, tail := range []bool{false, true} {
+		tail := tail
+		nm := "sibling-instances-share-a-table"
+		if tail {
+			nm += "-tail-calls"
+		}
+		out = append(out, directed{nm, func(g *gen) {
+			es := exporterSpec("e", 0)
+			es.Tail = tail
+			e := g.instantiate(es).Inst
+			spec := &ModSpec{Name: "s1", ID: 1, Tail: tail,
+				Imports: []ImportSpec{impTab("e", wenc.Limits{Min: 4}), {Mod: "e", Name: "L1", Ext: Ext{Kind: wenc.ExtFunc, Func: ft(tI32, tI32)}}},
+				Mem:     &wenc.Limits{Min: 1, Max: 2, HasMax: true},
+				Globals: []GlobalSpec{cg(wenc.I32, true, 5), cg(wenc.I64, true, 6)},
+				Datas:   []DataSpec{{Passive: true, Bytes: []byte("sibling")}}}
+			s1 := g.instantiate(spec).Inst
+			s2 := g.instantiateAs(spec, "s2").Inst
+			s3 := g.instantiateAs(spec, "s3").Inst
+			for k, in := range []*mInst{s1, s2, s3} {
+				g.initPrivate(in, k+1)
+				g.call(in, "mfill", uint64(64+k), uint64(0xa0+k), 3)
+			}
+			// slot k: L1 of s(k+1) (adds to its own global), slot 3: L2 of s2 (loads from its own memory)
+			g.call(s1, "tset0", 0, 1)
+			g.call(s2, "tset0", 1, 1)
+			g.call(s3, "tset0", 2, 1)
+			g.call(s2, "tset0", 3, 2)
+			forms := []string{"tcall0"}
+			if tail {
+				forms = append(forms, "rtcall0")
+			}
+			for _, caller := range []*mInst{s1, s2, s3, e} {
+				for _, f := range forms {
+					for slot := uint64(0); slot < 3; slot++ {
+						g.call(caller, f, slot, 10)
+					}
+					for _, a := range []uint64{1, 7, 33, 64, 65} {
+						g.call(caller, f, 3, a)
+					}
+				}
+				for _, in := range []*mInst{s1, s2, s3} {
+					g.call(in, "gget1")
+				}
+			}
+			if tail {
+				// hops: L4 of one sibling tail-calls into the next one
+				g.call(s1, "tset0", 0, 4)
+				g.call(s3, "tset0", 2, 4)
+				for _, caller := range []*mInst{s1, s2, s3, e} {
+					g.call(caller, "rtcall0", 0, 0x210)    // s1.L4 -> slot 0x10? out of range: trap
+					g.call(caller, "rtcall0", 0, 0x0901)   // s1.L4 -> slot 1 (s2.L1) with 9
+					g.call(caller, "rtcall0", 2, 0x2103)   // s3.L4 -> slot 3 (s2.L2) loads s2 memory at 0x21
+					g.call(caller, "rtcall0", 0, 0x070102) // s1.L4 -> slot 2 (s3.L4) -> slot 1 (s2.L1) with 7
+					g.call(caller, "tcall0", 2, 0x070100)  // s3.L4 -> slot 0 (s1.L4) -> slot 1 (s2.L1) with 7
+				}
+				for _, in := range []*mInst{s1, s2, s3} {
+					g.call(in, "rci0", 3) // return_call of the imported e.L1
+					g.call(in, "gget1")
+				}
+			}
+			g.sweep()
+		}})
+	}
 	// ---- segments that are in range only because the exporter has grown
 	out = append(out, directed{"segments-in-grown-region", func(g *gen) {
 		e := g.instantiate(exporterSpec("e", 0)).Inst
